@@ -175,6 +175,21 @@ pub fn poly_case(cx: &mut Ctx, n: u64, case: &Value) {
             }
         }
     }
+    if cx.wants("C13") && !cx.wants("C05") {
+        // commutation clause: exact maps scale the area by exactly |det| and keep / flip the winding
+        let p0 = Polygon::new(ext.clone(), holes.clone());
+        for m in maps.iter() {
+            let tp = match m.on(&G::Polygon(p0.clone())) { G::Polygon(p) => p, _ => unreachable!() };
+            let want = area * m.det().abs();
+            let maxc = tp.exterior().0.iter().fold(0f64, |a, c| a.max(c.x.abs()).max(c.y.abs()));
+            let ext_size = 8.0 * m.m[0].abs().max(m.m[1].abs()).max(m.m[3].abs()).max(m.m[4].abs());
+            let tol = 4.0 * ulp(maxc) * ext_size;
+            let got = tp.unsigned_area();
+            if (got - want).abs() <= tol && (tp.signed_area() > 0.0) == (m.det() > 0.0) { cx.ok("area_exact_map"); } else {
+                cx.bad("C13", "area_exact_map", case, json!({"what": format!("map {}", m.name), "got": got, "want": want, "tol": tol}));
+            }
+        }
+    }
     if cx.wants("C14") {
         crate::ops_valid::valid_polygon_case(cx, n, case, &Polygon::new(ext.clone(), holes.clone()));
     }
